@@ -206,3 +206,56 @@ def random_program(rng, n_e, n_p, n_c, length, wrappers=None, p_measure=0.25):
 def library_wrappers():
     from graphiq.circuit import ops
     return [[g.__name__ for g in w] for w in ops.one_qubit_cliffords()]
+
+
+def compile_traces(circuit, tid, rng, settings=(0, 1, 2), backends=("stabilizer", "dm"), meta=None):
+    """Trace_CircuitRun traces of compiling an existing circuit object (copied per run) with the real compilers."""
+    out = []
+    for backend in backends:
+        for setting in settings:
+            c = circuit.copy()
+            circ, _ = project_circuit(c)
+            events, _ = compile_traced(c, backend, setting, seed=rng.randrange(2 ** 31))
+            tid += 1
+            m = {"backend": backend, "setting": setting}
+            m.update(meta or {})
+            out.append({"tid": tid, "meta": m, "circ": circ, "setting": setting, "init": [], "events": events})
+    return out, tid
+
+
+def sequence_order(circuit, nodes):
+    """Indices (1-based, as in project_circuit) of the non-IO operations in the order sequence() returns them."""
+    import networkx as nx
+    from graphiq.circuit import ops as gops
+    seq = circuit.sequence()
+    by_obj = {id(circuit.dag.nodes[n]["op"]): i + 1 for i, n in enumerate(nodes)}
+    return [by_obj[id(op)] for op in seq if not isinstance(op, gops.InputOutputOperationBase)]
+
+
+def all_graphs(n):
+    import itertools
+    import networkx as nx
+    pairs = list(itertools.combinations(range(n), 2))
+    for mask in range(1 << len(pairs)):
+        g = nx.Graph()
+        g.add_nodes_from(range(n))
+        g.add_edges_from(p for k, p in enumerate(pairs) if (mask >> k) & 1)
+        yield g
+
+
+def graph_edges1(g):
+    """edges of a graph on nodes 0..n-1 as sorted 1-based pairs."""
+    return sorted([min(u, v) + 1, max(u, v) + 1] for u, v in g.edges() if u != v)
+
+
+def target_state(graph, rep):
+    """QuantumState holding |G> in the requested representation (nodes 0..n-1 = qubit order)."""
+    import networkx as nx
+    from graphiq.state import QuantumState
+    from graphiq.backends.stabilizer.functions.rep_conversion import get_clifford_tableau_from_graph
+    from graphiq.backends.state_rep_conversion import graph_to_density
+    if rep == "g":
+        return QuantumState(graph, rep_type="g")
+    if rep == "s":
+        return QuantumState(get_clifford_tableau_from_graph(graph), rep_type="s")
+    return QuantumState(graph_to_density(graph), rep_type="dm")
